@@ -39,10 +39,18 @@ out = []
 for it in items:
     try:
         spec = runlib.Spec(it["yaml"])
-        t1 = spec.compile(arch=it.get("arch", False))
+        if it.get("arch", False):
+            # all five sections parsed ONCE; the same parsed objects are handed to the translator twice
+            from teaal.parse import Architecture, Bindings, Format
+            from teaal.trans.hifiber import HiFiber
+            parsed = (spec.einsum, spec.mapping, Architecture.from_str(it["yaml"]), Bindings.from_str(it["yaml"]), Format.from_str(it["yaml"]))
+            compile_ = lambda: str(HiFiber(*parsed))
+        else:
+            compile_ = lambda: spec.compile(arch=False)
+        t1 = compile_()
         # same objects compiled twice in one process
         try:
-            t2 = spec.compile(arch=it.get("arch", False))
+            t2 = compile_()
             out.append({"text": t1, "twice_equal": t1 == t2})
         except Exception as e2:
             out.append({"text": t1, "twice_equal": False, "second_error": type(e2).__name__ + ": " + str(e2)[:100]})
